@@ -2731,6 +2731,7 @@ class SQLiteDialect(default.DefaultDialect):
                 r"FOREIGN\s+KEY\s*\(\s*(.+?)\s*\)\s+"
                 r'REFERENCES\s+(?:(?:"((?:[^"]|"")+)")|([a-z0-9_]+))\s*'
                 r'\(\s*((?:(?:"(?:[^"]|"")+"|[a-z0-9_]+)\s*(?:,\s*)?)+)\)\s*'
+                r"(?:MATCH\s+\w+\s*)?"
                 r"((?:ON\s+(?:DELETE|UPDATE)\s+"
                 r"(?:SET\s+NULL|SET\s+DEFAULT|CASCADE|RESTRICT|"
                 r"NO\s+ACTION)\s*)*)"
